@@ -227,6 +227,28 @@ class PropertyRun(object):
             self.known_printed.append(ln)
 
 
+def adopt_twin(modname, finding_patterns=()):
+    """wrap a stand-alone twin module (twin/tCxx.py: twin(tier, seed), replay_history(history)) as the
+    property's twin()/replay_file(); finding_patterns: [(regex on violation key, finding id)]"""
+    import importlib
+
+    def twin(tier, seed):
+        t = importlib.import_module(modname)
+        r = t.twin(tier, seed)
+        for v in r.get('violations', []):
+            for pat, fid in finding_patterns:
+                if re.search(pat, v.get('key', '')):
+                    v['finding'] = fid
+                    break
+        return r
+
+    def replay_twin(doc):
+        t = importlib.import_module(modname)
+        v = t.replay_history(doc['violation']['history'])
+        return {'reproduced': bool(v), 'native_violations': v[:3]}
+    return twin, replay_twin
+
+
 def main(argv):
     import argparse
     import importlib
